@@ -115,7 +115,7 @@ def hashseed_suite(ctx):
     base = sweep.baseline("C06")
     items = sweep.pick(sweep.generated_corpus(), ctx, 40) + sweep.pick(sweep.generated_corpus2(), ctx, 36) + sweep.pick(sweep.example_corpus(), ctx, 30)
     items = [it for it in items if it[0] not in base]
-    seeds = list(range(16)) if ctx.thorough else [0, 1, 2, 3, 4, 5]
+    seeds = list(range(8)) if ctx.thorough else [0, 1, 2, 3, 4, 5]
     pairs = [(src, {}) for (_sha, src, _fam) in items]
     # split into chunks so that each (seed, chunk) is one fresh process
     chunks = [list(range(i, len(pairs), 4)) for i in range(4)]
